@@ -1351,3 +1351,39 @@ fn u16_to_u8(i: u16) -> Option<u8> {
         Some(i.try_into().unwrap())
     }
 }
+
+#[cfg(vt100_verif)]
+impl Screen {
+    /// Dumps the complete internal state in a canonical text form, for the
+    /// model correspondence check of the verification harness.
+    #[must_use]
+    pub fn verif_dump(&self) -> String {
+        use std::fmt::Write as _;
+        let mut out = String::new();
+        write!(
+            out,
+            "SCREEN modes={:05b} mouse={} enc={} pen=",
+            self.modes,
+            match self.mouse_protocol_mode {
+                MouseProtocolMode::None => 0,
+                MouseProtocolMode::Press => 1,
+                MouseProtocolMode::PressRelease => 2,
+                MouseProtocolMode::ButtonMotion => 3,
+                MouseProtocolMode::AnyMotion => 4,
+            },
+            match self.mouse_protocol_encoding {
+                MouseProtocolEncoding::Default => 0,
+                MouseProtocolEncoding::Utf8 => 1,
+                MouseProtocolEncoding::Sgr => 2,
+            },
+        )
+        .unwrap();
+        self.attrs.verif_dump(&mut out);
+        out.push_str(" spen=");
+        self.saved_attrs.verif_dump(&mut out);
+        out.push('\n');
+        self.grid.verif_dump("main", &mut out);
+        self.alternate_grid.verif_dump("alt", &mut out);
+        out
+    }
+}
